@@ -259,7 +259,9 @@ func validateServiceEndpointObjects(objs []interface{}) error {
 	for _, obj := range objs {
 		uri, ok := obj.(string)
 		if ok {
-			return validateURI(uri)
+			if err := validateURI(uri); err != nil {
+				return err
+			}
 		}
 	}
 
